@@ -28,7 +28,7 @@ ASSUMPTIONS = [
     '1077efec-c0b2-4d02-ace3-3c1e52e2fb4b',
     'stored init segment = the top-level boxes of the stored file before the first moof (whatever trails moov)',
     'only 200 responses are judged (an encrypted track requested without DRM may be refused)',
-    'mehd may be kept in live mode (the property permits "differs only by")',
+    'live mode: the response is the stored init segment minus mehd - a mehd that is still there is a violation',
 ]
 
 PLAYREADY = uuid.UUID('9a04f079-9840-4286-ab92-e65be0885f95').bytes
@@ -152,12 +152,16 @@ def check_init(acc, rec, stream, fname, mode, sel, la_url, body):
         if rb.type == b'mvex':
             rch = [c for c in rb.children]
             sch = [c for c in sb.children]
-            if [c.raw for c in rch] != [c.raw for c in sch]:
-                s_wo = [c.raw for c in sch if c.type != b'mehd']
-                if mode == 'live' and [c.raw for c in rch] == s_wo:
-                    acc.outcome('mehd-removed')
+            s_wo = [c.raw for c in sch if c.type != b'mehd']
+            if mode == 'live':
+                if [c.raw for c in rch] == s_wo:
+                    acc.outcome('mehd-removed' if len(s_wo) != len(sch) else 'no-mehd-stored')
+                elif [c.raw for c in rch] == [c.raw for c in sch]:
+                    bad('mehd-kept-in-live', f'live mode: mvex still holds {[c.name for c in rch]} (mehd must be removed)')
                 else:
                     bad('mvex-changed', f'mvex children {[c.name for c in rch]} vs stored {[c.name for c in sch]}')
+            elif [c.raw for c in rch] != [c.raw for c in sch]:
+                bad('mvex-changed', f'mvex children {[c.name for c in rch]} vs stored {[c.name for c in sch]}')
         elif rb.raw != sb.raw:
             bad(f'box-changed|moov.{rb.name}', f'moov child {rb.name} differs from the stored bytes')
     if len(rk) < len(sk):
